@@ -42,7 +42,7 @@ func (c17) Meta() fw.Meta {
 			"the race detector sees only races that happen in the executed schedules; in-flight overlap is measured and a trial without overlap does not count as non-trivial",
 			"requests carry their clock (now) so sequential and concurrent executions are comparable bit for bit",
 		},
-		Obligations: []string{"handle_trials", "handle_concurrent_calls", "sum_trials", "sum_concurrent_calls", "sum_out_of_order_forced", "server_trials", "server_concurrent_requests", "endpoint_view", "endpoint_view_raw", "endpoint_sum", "endpoint_items", "endpoint_files", "cli_race_runs", "max_in_flight_ge2"},
+		Obligations: []string{"handle_trials", "handle_concurrent_calls", "sum_trials", "sum_concurrent_calls", "sum_out_of_order_forced", "server_trials", "server_concurrent_requests", "endpoint_view", "endpoint_view_raw", "endpoint_sum", "endpoint_items", "endpoint_files", "cli_race_runs", "max_in_flight_ge2", "requests_differing_only_in_clock", "sum_error_path_trials"},
 		Race:        true,
 		Workers:     6,
 	}
@@ -333,6 +333,34 @@ func c17Sum(c *fw.Ctx) {
 		c.Violationf("concurrent-sum-differs", fw.J{"layout": l, "files": nf, "goroutines": G, "problems": bads[:minI(len(bads), 3)]},
 			"sum over %d files while the first file was briefly locked: %s", nf, bads[0])
 	}
+	// error path: many unreadable files among good ones; the concurrent read must report the error a sequential read
+	// reports, promptly (it must not hang)
+	if c.Index%2 == 1 {
+		bad := filepath.Join(base, "badgrp")
+		mustMkdir(bad)
+		for i := 0; i < 4; i++ {
+			c17FillFile(r, filepath.Join(bad, fmt.Sprintf("g%02d.wsp", i)), l, now, true)
+		}
+		good := readFileOrNil(filepath.Join(bad, "g00.wsp"))
+		for i := 0; i < 20+r.Intn(10); i++ {
+			ioutil.WriteFile(filepath.Join(bad, fmt.Sprintf("t%02d.wsp", i)), good[:len(good)/2], 0644)
+		}
+		done := make(chan error, 1)
+		go func() {
+			_, _, err := wcmd.VerifSumWhisperFile(base, "badgrp", "*.wsp", -1, u32(from), u32(until), u32(now))
+			done <- err
+		}()
+		select {
+		case err := <-done:
+			if err == nil {
+				c.Violationf("sum-ignores-unreadable-files", fw.J{"files": "4 good + >=20 truncated"}, "sum over an item with truncated files succeeded")
+			}
+			c.Count("sum_error_path_trials", 1)
+		case <-time.After(90 * time.Second):
+			c.Violationf("concurrent-sum-hangs", fw.J{"files": "4 good + >=20 truncated"}, "sum over an item with many unreadable files did not return within 90 s (a sequential read reports the error at once)")
+			return
+		}
+	}
 	// the real CLI (errgroup reads of copy and diff) under the race detector
 	bin := filepath.Join(c.Env.BuildDir, "whispertool-race")
 	raceEnv := append(os.Environ(), "GORACE=halt_on_error=0 log_path="+filepath.Join(c.Env.Tmp, "..", "race"))
@@ -475,6 +503,22 @@ func c17Server(c *fw.Ctx) {
 			add("files", "/files?pattern="+url.QueryEscape([]string{"*/*.wsp", "a/*.wsp", "n/x/m0.wsp", "q/*.wsp"}[r.Intn(4)]))
 		}
 	}
+	// requests that differ ONLY in the client's clock (windows clamped by now): each must be answered for its own clock
+	for i := 0; i < 6; i++ {
+		f := files[r.Intn(len(files))]
+		a := l.Archs[r.Intn(len(l.Archs))]
+		from := now - a.Ret() - int64(r.Intn(50)) // clamped by now-retention
+		until := now + 500                        // clamped by now
+		it := []string{"a", "b", "n.x"}[r.Intn(3)]
+		for _, dn := range []int64{0, int64(a.Step) * 3, int64(a.Step)*7 + 1} {
+			if i%2 == 0 {
+				add("sum", fmt.Sprintf("/sum?item=%s&pattern=%s&retention=-1&from=%s&until=%s&now=%s", it, url.QueryEscape("*.wsp"), ts(from), ts(until), ts(now+dn)))
+			} else {
+				add("view", fmt.Sprintf("/view?file=%s&retention=-1&from=%s&until=%s&now=%s", url.QueryEscape(f), ts(from), ts(until), ts(now+dn)))
+			}
+		}
+	}
+	c.Count("requests_differing_only_in_clock", 18)
 	client := &http.Client{Timeout: 60 * time.Second, Transport: &http.Transport{MaxIdleConnsPerHost: 64}}
 	type resp struct {
 		code int
@@ -504,7 +548,7 @@ func c17Server(c *fw.Ctx) {
 		go func(order []int) {
 			defer wg.Done()
 			<-start
-			for _, i := range order[:12] {
+			for _, i := range order[:16] {
 				k := atomic.AddInt64(&inflight, 1)
 				for {
 					m := atomic.LoadInt64(&maxInflight)
